@@ -72,15 +72,16 @@ class History:
             # the third way to obtain a tree for a string: the combined parser that also expands packages and time conditions
             import asyncio
             from ahbicht.expressions.expression_resolver import parse_expression_including_unresolved_subexpressions as resolve
-            from .. import evalenv
-            evalenv.configure_cer_based()
+            from .. import evalenv, schedules as S
+            S.configure()  # the package resolver really suspends (as one that asks a database would)
+            S.set_schedule({("pkg", "7P"): 1, ("pkg", "8P"): 2, ("pkg", "9P"): 1})
             evalenv.set_cer(evalenv.make_cer(packages={"7P": "[1] U [2]", "8P": "[3] O ([4] U [UB1])", "9P": "[5][901]"}))
             self.cached = [cp.parse_condition_expression_to_tree, ap.parse_ahb_expression_to_single_requirement_indicator_expressions]
             def flags(s):
                 # every combination of the two flags is used, as a fixed function of the string (so that replays repeat it)
                 import zlib
                 h = zlib.crc32(("flags" + s).encode("utf-8", "replace"))
-                if "UB" in s and h % 3:
+                if s.count("P]") >= 10 or ("UB" in s and h % 3):
                     return {"resolve_packages": True, "replace_time_conditions": True}  # time conditions are mostly resolved with the default flag
                 return {"resolve_packages": bool(h & 1), "replace_time_conditions": bool(h & 2)}
             self.flags = flags
@@ -304,7 +305,8 @@ def run(ctx: Ctx) -> None:
             strings = [deep_string(rng, d) for d in (150, 270, 330)]
         if parser == "resolve":
             deep = True  # (no model twin: answers of the resolver are compared with its own first answers)
-            strings = ["Muss [1] U [UB3]", "[UB1] O [UB1]", "Muss [UB2] Soll [7P]", "[7P] U [8P]", "X [9P] O [UB1]", "[2] U ([UB3] O [8P 1..2])"]
+            strings = ["Muss [1] U [UB3]", "[UB1] O [UB1]", "Muss [UB2] Soll [7P]", "[7P] U [8P]", "X [9P] O [UB1]", "[2] U ([UB3] O [8P 1..2])",
+                       " U ".join(["[7P]", "[8P]", "[9P]"] * 4)]  # twelve package occurrences in one expression
         while len(strings) < n_strings:
             e = T.rand_expr(rng, rng.randint(1, 5))
             s = T.render(e, T.Style(rng, "min", "upper", "one")).strip()
@@ -324,13 +326,13 @@ def run(ctx: Ctx) -> None:
         seen = []
         if parser == "resolve":
             # systematic prelude: every sub-tree of every returned tree of the first strings is edited once, then all of them are resolved again
-            for s0 in strings[:6]:
+            for s0 in strings[:7]:
                 if h.step_parse(s0) is None or not h.held:
                     continue
                 root = len(h.held) - 1
                 for path, _ in list(h.subtrees(h.held[root]))[:14]:
                     h.step_edit(at=(root, path))
-                for s1 in strings[:6]:
+                for s1 in strings[:7]:
                     h.step_parse(s1)
                     ctx.case((parser, len(histories), "prelude", s0, s1))
         for k in range(n_ops):
